@@ -325,6 +325,17 @@ func (e *Exec) callFn(fr *frame, st *State, c *ssa.CallCommon, fn *ssa.Function,
 			*st = *out
 			return wrapResults(rs, sig), true
 		}
+		if fn.Blocks != nil && !hasCycle(fn) && e.depth < 12 {
+			// a loop-free repository function without a contract (e.g. a helper extracted by a refactoring)
+			// is executed in place: the caller's obligations then speak about its real body
+			e.note(fmt.Sprintf("%s has no contract: its body is executed in place at %s", shortKey(key), where))
+			rs, out := e.runInline(fn, args, nil, st, nil)
+			if out == nil {
+				return nil, false
+			}
+			*st = *out
+			return wrapResults(rs, sig), true
+		}
 		e.unsupported("call of %s (no contract) at %s", shortKey(key), where)
 		return e.freshOf(st, "nocontract", sig.Results()), true
 	}
@@ -475,6 +486,10 @@ func (e *Exec) collectMods(st *State, ct *Contract, args []Value) ([]*Ptr, bool)
 // ghostLoad reads ghost state attached to an object: ghost_x(obj) is component G.ghost_x at obj.
 func (e *Exec) ghostLoad(st *State, fn *ssa.Function, args []Value) Value {
 	name := fn.Name()
+	if strings.HasPrefix(name, "ghost_closed") {
+		// ghost_closedXxx(c chan T): the closed flag of a channel of another element type (one flag for all)
+		name = "ghost_closed"
+	}
 	rs := e.ti.sortOf(fn.Signature.Results().At(0).Type())
 	ref := e.asTerm(st, args[0], fn.Signature.Params().At(0).Type())
 	e.ghostSorts[name] = rs
@@ -537,6 +552,7 @@ func (e *Exec) havocAllHeap(st *State) {
 	// new heap epoch: every component, touched so far or not, becomes unknown
 	e.nepoch++
 	st.epoch = e.nepoch
+	st.etree = nil
 	for _, k := range sortedKeys(st.heap) {
 		delete(st.heap, k)
 	}
@@ -1088,4 +1104,27 @@ func cleanTrigger(t string, bound []string) []string {
 		return out[:1]
 	}
 	return out
+}
+
+// hasCycle: does the control-flow graph of fn contain a loop?
+func hasCycle(fn *ssa.Function) bool {
+	color := map[*ssa.BasicBlock]int{}
+	var dfs func(b *ssa.BasicBlock) bool
+	dfs = func(b *ssa.BasicBlock) bool {
+		color[b] = 1
+		for _, s := range b.Succs {
+			if color[s] == 1 {
+				return true
+			}
+			if color[s] == 0 && dfs(s) {
+				return true
+			}
+		}
+		color[b] = 2
+		return false
+	}
+	if len(fn.Blocks) == 0 {
+		return false
+	}
+	return dfs(fn.Blocks[0])
 }
